@@ -198,7 +198,7 @@ def gen_conversion(tree, out):
     need(U(body[k - 1]) == 'self.geom = None', '__init__: statement before the window test: ' + U(body[k - 1]))
     need(len(s.body) == 1 and not s.orelse and isinstance(s.body[0], ast.Assign) and U(s.body[0].targets[0]) == 'self.geom',
          '__init__: body of the window test')
-    out.append('(* conversion.SeismicFileConverter.__init__:  ' + U(s.test) + ' *)')
+    out.append('(* conversion.SeismicFileConverter.__init__:  ' + U(s.test).replace('*)', '* )') + ' *)')
     out.append(f'Definition w_window_accepted (min_il max_il min_xl max_xl : option Z) : bool := {acceptance(s.test)}.')
     env = {n: n for n in WIN}
     out.append(f'Definition w_window_geom (min_il max_il min_xl max_xl : Z) : Z * Z * Z * Z := '
